@@ -473,6 +473,9 @@ func TestC27(t *testing.T) {
 	})
 	report("bK", kouts)
 	c.Exhaustive("(b) K-encoding class legs (curve25519: 5 classes x 2 roles; one ECDH and one DH method: 1-zero-byte classes x 2 roles)", len(kcases))
+	// (c) packet-cipher epochs next to counter / IV carries, Go framing against refpeer's
+	c.Oracle("refpeer packet ciphers (validated against the OpenSSH client) under the same key and IV as the Go packet cipher, counters placed next to their carry boundaries")
+	c27CounterEpochs(c, t, planSeed)
 	if exh {
 		c.Exhaustive(fmt.Sprintf("(b) kex(%d) x host key algorithm(%d) x cipher/MAC effective pairs, Go client -> refpeer server", len(lb.kex), len(lb.host)), total)
 	} else {
@@ -682,7 +685,7 @@ func c27RunB(k c27Case) c27Outcome {
 		sr = <-sdone
 		close(all)
 	}()
-	prog := func() int64 { return a.(moved).Moved() + b.(moved).Moved() }
+	prog := func() int64 { return a.(moved).Moved() + b.(moved).Moved() + harnessTicks.Load() }
 	idle := time.Duration(ev.Scale(20, 60)) * time.Second
 	if k.inCBCEtM() {
 		idle = 6 * time.Second // known to block (see below); only this class gets the short window
